@@ -19,7 +19,7 @@ func descentLoop(p *Program, f *ssa.Function) (header *ssa.BasicBlock, loop map[
 		found := false
 		instrsOf(g, func(_ *ssa.BasicBlock, in ssa.Instruction) {
 			if st, ok := in.(*ssa.Store); ok {
-				if _, fv, fa := fieldOfAddr(st.Addr); fa != nil && isSessionPtr(fa.X) && (fv.Name() == "from" || fv.Name() == "isInner") {
+				if _, fv, fa := fieldOfAddr(st.Addr); fa != nil && isSessionPtr(fa.X) && (fv.Name() == curSess.from) {
 					found = true
 				}
 			}
@@ -165,7 +165,9 @@ func checkC03(p *Program, r *Report) {
 	nTail := 0
 	// the rest of the key: the key parameter or the session's copy of it (sessions are created with
 	// key = the query, C10.keyindex)
-	ofKey := func(c string) bool { return strings.Contains(c, "KEY") || strings.Contains(c, ".key,") || strings.Contains(c, ".key)") }
+	ofKey := func(c string) bool {
+		return strings.Contains(c, "KEY") || strings.Contains(c, ".key,") || strings.Contains(c, ".key)")
+	}
 	judge := func(ps []fpath, construct, pos string) {
 		var bad []string
 		nFound := 0
